@@ -1,23 +1,34 @@
 /-
 C20 — gRPC wire fidelity: method, message and metadata reach the server as written.
 
-* `C20_metadata`  — REPAIRED code (metadata rendered into a copy, fixes/C20-metadata-copy.diff): for every set of
-  templates, any number of instances with any lists of shots and EVERY interleaving (arbitrary schedule list, one
-  map-cell action per element) the metadata sent by each completed shot is `render(step templates, that shot's
-  variables)`.
-* `C20_metadata_inplace_counterexample` — the code as written (rendering into the shared definition map) does not
-  have this property (two instances, one key).
-* `C20_errors_isolated` — an entry with an unknown method or an ill-fitting payload yields exactly one failed sample
-  and no call, and the outcomes of the entries before and after it are what they are without it (any entry list).
-* `C20_errors_isolated_scenario` — a failing scenario step yields exactly one sample, no call, and (repaired code)
-  leaves every call definition's metadata as it was.
-* `C20_method` — a call is made only for a method of the reflected table, to exactly the named method, at most once.
+Clause → theorem (see notes/C20.md for the table):
+
+* method / message / metadata / timeout of a grpc/json entry ............ `C20_method`, `C20_timeout`
+* the same for a gRPC scenario call, after templating ..................... `C20_scenario_step` (part 2), `C20_timeout`
+* metadata of a scenario call = the DEFINITION's templates rendered with that shot's variables, for any number of
+  instances and EVERY interleaving of their map accesses ................... `C20_metadata`, `C20_definition_untouched`
+  (the code before repair a3063a3 does not have it: `C20_metadata_inplace_counterexample`)
+* unknown method / ill-typed payload ⇒ one failed sample, no call, other entries undisturbed
+    grpc/json ........ `C20_errors_isolated`
+    scenario ......... `C20_scenario_step` (part 1), `C20_scenario_shot_ends_at_failure`, `C20_scenario_refines`
+* any number of instances, shared client on/off ............................ `C20_instances` (plain gun),
+  `C20_scenario_refines` (scenario gun: any guns in any order), `C20_metadata` (concurrent map accesses)
+* the model of the code equals the stateless specification for every configuration and schedule
+  ........................................................................... `C20_scenario_refines`
+
+The timeout selection, the per-call context chain, where method / message / metadata of the call come from, the
+template cache key, the stub choice of `Bind`, the JSON / config tags and the example service's method table are
+REGENERATED from /repo's source (`Gen/GrpcGun.lean`) and proved equal to the model's in `Bridge/C20.lean`, which this
+file imports: a source change there breaks the build of this file.
 -/
 import Pandora.Model.C20
+import Pandora.Spec.C20
 import Pandora.Proofs.C20Conc
+import Pandora.Proofs.C20Scen
+import Pandora.Bridge.C20
 
 namespace Pandora.Props.C20
-open Pandora.Model.C20 Pandora.Model.C20Conc Pandora.Proofs.C20Conc
+open Pandora.Model.C20 Pandora.Model.C20Conc Pandora.Proofs.C20Conc Pandora.Proofs.C20Scen Pandora.Spec.C20
 
 /-! ### metadata under interleaving -/
 
@@ -49,8 +60,8 @@ def cexShots : List (List (Vars Nat)) := [[[(0, [1])]], [[(0, [2])]]]
 /-- instance 0 renders (idle, cell 0, end of map), then instance 1 renders and sends, then instance 0 sends -/
 def cexSched : List Nat := [0, 0, 0, 1, 1, 1, 1, 1, 0, 0]
 
-/-- **counterexample for the code as written**: instance 0 sends instance 1's… in fact both send `u-1`: instance 1
-parses the already rendered value as its template. -/
+/-- **counterexample for the code before the repair**: both instances send `u-1`: instance 1 parses the already
+rendered value as its template. -/
 theorem C20_metadata_inplace_counterexample : ¬ MetadataAsWritten (κ := Nat) runInPlace := by
   intro h
   have h1 := h cexTmpls cexShots cexSched 1
@@ -74,21 +85,15 @@ theorem C20_metadata_inplace_counterexample : ¬ MetadataAsWritten (κ := Nat) r
 example : ((runCopy (init cexTmpls cexShots) [0,0,0,0,1,1,1,1,1,1,1,0,0,0]).threads.map (·.sent))
     = [[[[100, 1]]], [[[100, 2]]]] := by decide
 
-/-- the same schedule shape on the code as written: instance 1 sends instance 0's value -/
+/-- the same schedule shape on the code before the repair: instance 1 sends instance 0's value -/
 example : ((runInPlace (init cexTmpls cexShots) cexSched).threads.map (·.sent))
     = [[[[100, 1]]], [[[100, 1]]]] := by decide
 
-/-! ### failing entries -/
+/-! ### grpc/json entries -/
 
 /-- the entry names no method of the table, or its payload does not fit the method's input type -/
 def Failing (e : Entry) : Prop :=
   lookupMethod e.call = none ∨ ∃ m fs, lookupMethod e.call = some (m, fs) ∧ decodeFields fs e.payload = none
-
-theorem shootAll_outcomes (tmo : Nat) (g : GunState) (es : List Entry) :
-    (shootAll tmo g es).2 = es.map (shootEntry tmo) := by
-  induction es generalizing g with
-  | nil => rfl
-  | cons e es ih => simp [shootAll, ih]
 
 /-- **C20_errors_isolated**: whatever precedes and follows, a failing entry produces exactly one sample
 (code 0 or 400) and no call, and all other entries produce what they produce on their own. -/
@@ -114,11 +119,10 @@ example : Failing { tag := "t", call := "target.TargetService.Hello", md := [], 
   refine ⟨"Hello", [⟨"name", "name", .str⟩], by simp [lookupMethod, methodTable, svc], ?_⟩
   simp [decodeFields, findField, convert]
 
-/-! ### method -/
-
 /-- **C20_method**: a shot makes at most one call; if it makes one, the entry's `call` is `target.TargetService.M`
 for a method `M` of the table, the payload fits `M`'s input type, and the call goes to `M` (its wire image starts
-with `M|`, the recorder's short form of `/target.TargetService/M`). -/
+with `M|`, the recorder's short form of `/target.TargetService/M`) with the message the payload decodes to, the
+entry's metadata and the configured timeout. -/
 theorem C20_method (tmo : Nat) (e : Entry) :
     (shootEntry tmo e).calls.length ≤ 1 ∧
     ∀ call ∈ (shootEntry tmo e).calls,
@@ -134,13 +138,171 @@ theorem C20_method (tmo : Nat) (e : Entry) :
     | some vals =>
       simp only [hd, List.length_singleton, Nat.le_refl, List.mem_singleton, true_and]
       intro call hc
-      refine ⟨m, fs, vals, ?_, ?_, hd, hc⟩
-      · exact List.mem_of_find?_eq_some hl
-      · have := List.find?_some hl
-        exact (by simpa using this : svc ++ "." ++ m = e.call).symm
+      obtain ⟨h1, h2⟩ := lookupMethod_some e.call m fs hl
+      exact ⟨m, fs, vals, h1, h2, hd, hc⟩
 
 /-- non-vacuity: a well-formed entry does make a call -/
 example : (shootEntry 0 { tag := "t", call := "target.TargetService.Hello", md := [("K", "v")], payload := [("name", PVal.z)] }).calls.length = 1 := by
   simp [shootEntry, lookupMethod, methodTable, svc, decodeFields, findField, convert]
+
+/-- **C20_instances** (plain gun; shared_deps.go): a pool of any number `n` of instances, with a shared client pool of
+any size `sc` or without one (`sc = 0`), firing the provider's entries in any assignment of entries to instances
+(`sched`, any list of instance indices below `n`): entry `k` produces `shootEntry` of entry `k`, whichever instance
+and connection carry it. -/
+theorem C20_instances (tmo n sc : Nat) (sched : List Nat) (es : List Entry) (h : ∀ i ∈ sched, i < n) :
+    ((runPool tmo (initPool n sc) sched es).2.map fun (i, _, o) => (i, o)) = expectedJsonSched tmo sched es := by
+  have hlen : (initPool n sc).length = n := by simp [initPool]
+  exact runPool_outcomes tmo (initPool n sc) sched es (by rw [hlen]; exact h)
+
+/-- non-vacuity: three instances sharing two connections -/
+example : ∀ i ∈ [2, 0, 1, 2], i < 3 := by decide
+example : (initPool 3 2).map (·.stub) = [1, 0, 1] := by decide
+
+/-! ### timeouts -/
+
+/-- **C20_timeout**: every call of a grpc/json entry and every call the specification demands of a scenario step
+carries the deadline of the configured timeout, 15 s when none is configured — and that selection is the one
+regenerated from the source of `(*Gun).shoot` and `(*Gun).shootStep`, made per call. -/
+theorem C20_timeout (tmoMs : Nat) :
+    (∀ e call, call ∈ (shootEntry tmoMs e).calls → ∃ m msg md, call = m ++ "|" ++ msgText msg ++ "|" ++ md ++ "|" ++ dlText tmoMs) ∧
+    (∀ (c : Cfg) scn cd vars call, c.tmo = tmoMs → call ∈ (specStep c scn cd vars).1.calls →
+        ∃ m msg md, call = m ++ "|" ++ msgText msg ++ "|" ++ md ++ "|" ++ dlText tmoMs) ∧
+    Gen.GrpcGun.gunTimeoutNs ((tmoMs : Int) * 1000000) = ((effTimeoutMs tmoMs : Nat) : Int) * 1000000 ∧
+    Gen.GrpcGun.scenarioTimeoutNs ((tmoMs : Int) * 1000000) = ((effTimeoutMs tmoMs : Nat) : Int) * 1000000 ∧
+    Gen.GrpcGun.gunContextChain = "WithTimeout>NewOutgoingContext>InvokeRpc" ∧
+    Gen.GrpcGun.scenarioContextChain = "WithTimeout>NewOutgoingContext>InvokeRpc" := by
+  refine ⟨?_, ?_, Bridge.C20.gunTimeout_eq tmoMs, Bridge.C20.scenarioTimeout_eq tmoMs,
+    Bridge.C20.gunContextChain_eq, Bridge.C20.scenarioContextChain_eq⟩
+  · intro e call hc
+    obtain ⟨m, fs, vals, _, _, _, rfl⟩ := (C20_method tmoMs e).2 call hc
+    exact ⟨m, canonMsg fs vals, mdText e.md, rfl⟩
+  · intro c scn cd vars call ht hc
+    subst ht
+    cases hl : lookupMethod cd.call with
+    | none => rw [specStep_unknown c scn cd vars hl] at hc; simp at hc
+    | some mf =>
+      obtain ⟨m, fs⟩ := mf
+      cases hd : decodeFields fs (renderedPayload cd vars) with
+      | none => rw [specStep_illtyped c scn cd vars m fs hl hd] at hc; simp at hc
+      | some vals =>
+        rw [(specStep_call c scn cd vars m fs vals hl hd).1] at hc
+        simp only [List.mem_singleton] at hc
+        exact ⟨m, canonMsg fs vals, mdText (renderedMd cd vars), hc⟩
+
+example : effTimeoutMs 0 = 15000 ∧ effTimeoutMs 40000 = 40000 ∧ dlText 0 = "dl15" := by decide
+
+/-! ### scenario calls -/
+
+/-- the invariant of the repaired scenario gun's world: every call definition's metadata map still holds the
+definition's templates, and every gun's template cache holds templates of the definition -/
+abbrev DefinitionsIntact (c : Cfg) (w : World) : Prop := WOk c w
+
+/-- the step is inside the modelled fragment (its templates refer only to variables that exist) -/
+def Modelled (c : Cfg) (cd : CallDef) (sv : ShotVars) : Prop :=
+  ((cd.pre && c.users.isEmpty) || needsMissing cd sv) = false
+
+/-- the step names no method of the table, or its rendered payload does not fit the method's input type -/
+def FailingStep (cd : CallDef) (vars : Vars Char) : Prop :=
+  lookupMethod cd.call = none ∨
+    ∃ m fs, lookupMethod cd.call = some (m, fs) ∧ decodeFields fs (renderedPayload cd vars) = none
+
+/-- the invariant holds initially (call names pairwise distinct, as the provider's registry requires) -/
+theorem C20_scenario_init (c : Cfg) (hd : namesDistinct c.calls = true) : DefinitionsIntact c (initWorld c) :=
+  initWorld_ok c hd
+
+/-- **C20_scenario_step**: one step of the repaired scenario gun, by any gun, in any scenario, on any world satisfying
+the invariant, with `vars` = the variables of THIS step (its own `[next]` user, its shot's auth results, globals):
+
+1. a failing step (unknown method / rendered payload not fitting the input type) yields exactly one sample (code 0 or
+   400) and no call, and leaves the invariant — hence every definition — intact;
+2. any other step makes exactly one call: to the method `M` named by `call = target.TargetService.M`, with the message
+   the RENDERED payload decodes to against `M`'s input fields, the metadata = the definition's templates rendered with
+   `vars`, under the configured timeout; and re-establishes the invariant. -/
+theorem C20_scenario_step (c : Cfg) (gun : Nat) (scn : String) (cd : CallDef) (w : World) (sv : ShotVars)
+    (hd : namesDistinct c.calls = true) (hw : DefinitionsIntact c w) (hcd : cd ∈ c.calls) (hm : Modelled c cd sv) :
+    (FailingStep cd (stepVars c cd w.iters sv).1 →
+        ∃ (w' : World) (o : Outcome), shootStep .copy c gun scn cd w sv = .failed w' o ∧ o.calls = [] ∧
+          (o.samples = [sampleText (scn ++ ".t" ++ cd.name) 0] ∨ o.samples = [sampleText (scn ++ ".t" ++ cd.name) 400]) ∧
+          DefinitionsIntact c w') ∧
+    (¬ FailingStep cd (stepVars c cd w.iters sv).1 →
+        ∃ (w' : World) (sv' : ShotVars) (o : Outcome) (m : String) (fs : List Field) (vals : List (String × Option String)), shootStep .copy c gun scn cd w sv = .ok w' sv' o ∧
+          (m, fs) ∈ methodTable ∧ cd.call = svc ++ "." ++ m ∧
+          decodeFields fs (renderedPayload cd (stepVars c cd w.iters sv).1) = some vals ∧
+          o.calls = [callText m (canonMsg fs vals) (mdText (renderedMd cd (stepVars c cd w.iters sv).1)) c.tmo] ∧
+          o.samples.length = 1 ∧ DefinitionsIntact c w') := by
+  obtain ⟨w', hw', _, _, hstep⟩ := shootStep_copy c gun scn cd w sv hd hw hcd hm
+  constructor
+  · intro hf
+    rcases hf with h | ⟨m, fs, h1, h2⟩
+    · rw [specStep_unknown c scn cd _ h] at hstep
+      exact ⟨w', _, hstep, rfl, Or.inl rfl, hw'⟩
+    · rw [specStep_illtyped c scn cd _ m fs h1 h2] at hstep
+      exact ⟨w', _, hstep, rfl, Or.inr rfl, hw'⟩
+  · intro hnf
+    cases hl : lookupMethod cd.call with
+    | none => exact absurd (Or.inl hl) hnf
+    | some mf =>
+      obtain ⟨m, fs⟩ := mf
+      cases hdec : decodeFields fs (renderedPayload cd (stepVars c cd w.iters sv).1) with
+      | none => exact absurd (Or.inr ⟨m, fs, hl, hdec⟩) hnf
+      | some vals =>
+        obtain ⟨h1, h2⟩ := specStep_call c scn cd _ m fs vals hl hdec
+        obtain ⟨hmem, hcall⟩ := lookupMethod_some cd.call m fs hl
+        rw [h2] at hstep
+        simp only [if_true] at hstep
+        refine ⟨w', _, _, m, fs, vals, hstep, hmem, hcall, hdec, ?_, ?_, hw'⟩
+        · rw [h1]
+        · rw [h1]; rfl
+
+/-- **C20_scenario_shot_ends_at_failure**: a failing step ends ITS shot only: the shot's outcome is what the steps
+before it produced plus the failed sample, whatever steps follow. -/
+theorem C20_scenario_shot_ends_at_failure (c : Cfg) (gun : Nat) (scn : String) (cd : CallDef) (rest : List CallDef)
+    (w : World) (sv : ShotVars) (acc : Outcome)
+    (hd : namesDistinct c.calls = true) (hw : DefinitionsIntact c w) (hcd : cd ∈ c.calls) (hm : Modelled c cd sv)
+    (hf : FailingStep cd (stepVars c cd w.iters sv).1) :
+    ∃ (w' : World) (o : Outcome), shootSteps .copy c gun scn (cd :: rest) w sv acc =
+        .done w' { calls := acc.calls, samples := acc.samples ++ o.samples } ∧
+      o.samples.length = 1 ∧ DefinitionsIntact c w' := by
+  obtain ⟨w', o, hstep, hcalls, hs, hw'⟩ := (C20_scenario_step c gun scn cd w sv hd hw hcd hm).1 hf
+  refine ⟨w', o, ?_, ?_, hw'⟩
+  · simp [shootSteps, hstep, hcalls]
+  · rcases hs with h | h <;> simp [h]
+
+/-- **C20_scenario_refines**: for every configuration (call names distinct), any guns firing any number of shots in
+any order: whenever the stateless specification `expectedSched` (computed from the DEFINITION and the iterator draws
+only) defines the expected trace, the model of the repaired code produces exactly that trace. In particular a failing
+step or a failing shot changes nothing for the shots after it. -/
+theorem C20_scenario_refines (c : Cfg) (hd : namesDistinct c.calls = true) (sched : List Nat) (tr : List (Nat × Outcome))
+    (h : expectedSched c sched 0 [] [] = some tr) :
+    runSched .copy c sched 0 (initWorld c) [] = .inl (some tr) :=
+  runSched_copy c hd sched 0 (initWorld c) [] tr (initWorld_ok c hd) h
+
+/-! non-vacuity of the scenario theorems: a two-step scenario (one good step with templated metadata, one step with an
+unknown method), two users -/
+
+def exGood : CallDef :=
+  { name := "h", call := "target.TargetService.Hello", md := [("x-user", [Piece.lit ['u', '-'], Piece.var vU])],
+    payload := [("name", "s", [Piece.var vU])], pre := true }
+def exBad : CallDef :=
+  { name := "bad", call := "target.TargetService.Nope", md := [], payload := [], pre := false }
+def exCfg : Cfg :=
+  { tmo := 0, users := ["1", "2"], g := "g", calls := [exGood, exBad],
+    scns := [{ name := "s", weight := 1, reqs := ["h", "bad", "h"] }] }
+
+example : namesDistinct exCfg.calls = true := by decide
+example : exGood ∈ exCfg.calls ∧ exBad ∈ exCfg.calls := by simp [exCfg]
+example : Modelled exCfg exGood { a := none, i := none } ∧ Modelled exCfg exBad { a := none, i := none } := by
+  constructor <;> (unfold Modelled; decide)
+example (vars : Vars Char) : FailingStep exBad vars := by
+  left; simp [exBad, lookupMethod, methodTable, svc]
+example : ¬ FailingStep exGood [(vU, ['1'])] := by
+  intro h
+  rcases h with h | ⟨m, fs, h1, h2⟩
+  · simp [exGood, lookupMethod, methodTable, svc] at h
+  · simp [exGood, lookupMethod, methodTable, svc] at h1
+    obtain ⟨rfl, rfl⟩ := h1
+    simp [renderedPayload, exGood, decodeFields, findField, convert, pvalOf, render, lookupVar, vU] at h2
+/-- the hypothesis of `C20_scenario_refines` is met: the specification defines the trace of three shots by two guns -/
+example : (expectedSched exCfg [0, 1, 0] 0 [] []).isSome = true := by decide
 
 end Pandora.Props.C20
